@@ -427,18 +427,17 @@ impl<K: CacheKey + 'static> AsyncCache<K> for MemoryCache<K> {
         vp_sched!("mem.get.lookup");
         if let Some(entry) = self.storage.get(key) {
             if entry.is_expired() {
-                // Need to collect info and drop the guard before removing
-                let size_bytes = entry.size_bytes;
                 drop(entry); // Drop the guard before attempting to remove
 
-                // Remove expired entry
+                // Remove the entry only if it is still the expired one: a concurrent put
+                // may have stored a fresh value for this key in the meantime.
                 vp_sched!("mem.get.expired.remove");
-                if self.storage.remove(key).is_some() {
+                if let Some((_, removed)) = self.storage.remove_if(key, |_, e| e.is_expired()) {
                     vp_sched!("mem.get.expired.count");
                     self.entry_count.fetch_sub(1, Ordering::Relaxed);
                     vp_sched!("mem.get.expired.usage");
                     self.memory_usage
-                        .fetch_sub(size_bytes as u64, Ordering::Relaxed);
+                        .fetch_sub(removed.size_bytes as u64, Ordering::Relaxed);
                 }
 
                 self.metrics.record_get(false, start_time.elapsed());
@@ -494,29 +493,26 @@ impl<K: CacheKey + 'static> AsyncCache<K> for MemoryCache<K> {
 
         let entry = Arc::new(MemoryCacheEntryInner::new(value, size_bytes, Some(ttl)));
 
+        // Account for the new entry before it becomes visible and release the share of
+        // the entry it replaces afterwards. Every entry in the map has then been counted,
+        // and whoever takes an entry out of the map (remove, clear, eviction, expiry, a
+        // replacing put) subtracts exactly that entry: concurrent operations can make the
+        // counters run ahead of the map for a moment, never below it, and they agree with
+        // the map again once the operations have finished.
+        vp_sched!("mem.put.new.count");
+        self.entry_count.fetch_add(1, Ordering::Relaxed);
+        vp_sched!("mem.put.new.usage");
+        self.memory_usage
+            .fetch_add(size_bytes as u64, Ordering::Relaxed);
+
         // Insert or update entry
         vp_sched!("mem.put.insert");
         if let Some(old_entry) = self.storage.insert(key, entry) {
-            // Updating existing entry - adjust memory usage
-            let old_size = old_entry.size_bytes as u64;
-            let new_size = size_bytes as u64;
-
+            // Replaced an existing entry - release its share
             vp_sched!("mem.put.replace.usage");
-
-            if new_size > old_size {
-                self.memory_usage
-                    .fetch_add(new_size - old_size, Ordering::Relaxed);
-            } else {
-                self.memory_usage
-                    .fetch_sub(old_size - new_size, Ordering::Relaxed);
-            }
-        } else {
-            // New entry
-            vp_sched!("mem.put.new.count");
-            self.entry_count.fetch_add(1, Ordering::Relaxed);
-            vp_sched!("mem.put.new.usage");
+            self.entry_count.fetch_sub(1, Ordering::Relaxed);
             self.memory_usage
-                .fetch_add(size_bytes as u64, Ordering::Relaxed);
+                .fetch_sub(old_entry.size_bytes as u64, Ordering::Relaxed);
         }
 
         self.metrics.record_put(size_bytes, start_time.elapsed());
@@ -527,18 +523,16 @@ impl<K: CacheKey + 'static> AsyncCache<K> for MemoryCache<K> {
         vp_sched!("mem.contains.lookup");
         if let Some(entry) = self.storage.get(key) {
             if entry.is_expired() {
-                // Need to collect info and drop the guard before removing
-                let size_bytes = entry.size_bytes;
                 drop(entry); // Drop the guard before attempting to remove
 
-                // Clean up expired entry
+                // Clean up the entry only if it is still the expired one
                 vp_sched!("mem.contains.expired.remove");
-                if self.storage.remove(key).is_some() {
+                if let Some((_, removed)) = self.storage.remove_if(key, |_, e| e.is_expired()) {
                     vp_sched!("mem.contains.expired.count");
                     self.entry_count.fetch_sub(1, Ordering::Relaxed);
                     vp_sched!("mem.contains.expired.usage");
                     self.memory_usage
-                        .fetch_sub(size_bytes as u64, Ordering::Relaxed);
+                        .fetch_sub(removed.size_bytes as u64, Ordering::Relaxed);
                 }
                 Ok(false)
             } else {
@@ -564,12 +558,15 @@ impl<K: CacheKey + 'static> AsyncCache<K> for MemoryCache<K> {
     }
 
     async fn clear(&self) -> CacheResult<()> {
+        // Subtract what is actually taken out instead of zeroing the counters: an entry a
+        // concurrent put adds while the map is being emptied keeps its share.
         vp_sched!("mem.clear.storage");
-        self.storage.clear();
-        vp_sched!("mem.clear.count");
-        self.entry_count.store(0, Ordering::Relaxed);
-        vp_sched!("mem.clear.usage");
-        self.memory_usage.store(0, Ordering::Relaxed);
+        self.storage.retain(|_, entry| {
+            self.entry_count.fetch_sub(1, Ordering::Relaxed);
+            self.memory_usage
+                .fetch_sub(entry.size_bytes as u64, Ordering::Relaxed);
+            false
+        });
         self.metrics.reset();
         Ok(())
     }
